@@ -2,7 +2,9 @@
 """Side-car contracts for plumpy.processes (C01-C06, C12, C18).  Parsed with ast by pyvc; never executed."""
 import asyncio
 from plumpy.base.state_machine import StateEntryFailed, StateEventHook, StateMachine
-from plumpy.process_states import (Created, Excepted, Finished, Killed, ProcessState, Running, Waiting)
+from plumpy.process_states import (Created, Excepted, Finished, Killed, KillInterruption, PauseInterruption, ProcessState, Running,
+                                   Waiting)
+from plumpy.futures import CancellableAction
 from plumpy.processes import Process
 from plumpy import exceptions
 import plumpy.process_states
@@ -292,3 +294,31 @@ def ns_validate(self, port_values=None, breadcrumbs=()):
     modifies(user_effects)
     ensures(ret is None or isinstance(ret, PortValidationError))
     raises(Exception, True)
+
+
+# ------------------------------------------------------------------------------------------------ interrupt actions (C04, C05)
+@contract('plumpy.processes.Process._set_interrupt_action', props=['C04', 'C05'])
+def _set_interrupt_action(self, new_action):
+    """installing an action CANCELS the one that was pending (this is what lets a later pause replace an earlier kill: known
+    finding KF-C04-kill-replaced-by-other-request) and nothing else changes"""
+    requires(isinstance(self, Process))
+    requires(self._interrupt_action is None or isinstance(self._interrupt_action, CancellableAction))
+    prev = self._interrupt_action
+    modifies(self._interrupt_action, attr(self._interrupt_action, '_state'))
+    raises_nothing()
+    ensures('installed', self._interrupt_action is new_action)
+    ensures('previous_one_cancelled', implies(prev is not None and prev is not new_action and old(prev._state) == 'PENDING', prev._state == 'CANCELLED'))
+    ensures('finished_actions_keep_their_outcome', implies(prev is not None and old(prev._state) != 'PENDING', prev._state is old(prev._state)))
+    replay('installed', 'control_histories')
+
+
+@contract('plumpy.processes.Process._create_interrupt_action', props=['C04', 'C05'])
+def _create_interrupt_action(self, exception):
+    """the action for an interruption: a fresh pending run-once action whose cookie is that very interruption; a pause
+    interruption pauses with its message, a kill interruption kills; anything else is refused"""
+    requires(isinstance(self, Process))
+    modifies()
+    ensures('fresh_pending_action', type_is(ret, CancellableAction) and fresh(ret) and ret._state == 'PENDING' and ret._cookie is exception)
+    ensures('only_pause_or_kill', isinstance(exception, PauseInterruption) or isinstance(exception, KillInterruption))
+    raises(ValueError, not (isinstance(exception, PauseInterruption) or isinstance(exception, KillInterruption)))
+    replay('fresh_pending_action', 'control_histories')
